@@ -237,7 +237,33 @@ static void prop(Tape &t, Ctx &c) {
         w.P.send(m2);
         for (int r = 0; r < 10; r++) if (!shuttle()) break;
     }
-    if (w.dtls) for (auto &m : w.V.delivered_msgs) VF_CHECK(m == legit_msg(1, m.size()) || m == legit_msg(2, m.size()), "delivered-data-not-from-peer-application", "DTLS delivered a datagram the peer never sent; %s", desc.c_str());
+    // DTLS: a captured genuine record is also something an attacker without keys can send.  The peer sends a burst, the attacker
+    // reorders it and replays records it has already forwarded (newest, in-order, and late-arriving ones); every message may reach the
+    // application at most once.
+    std::vector<Bytes> burst;
+    if (w.dtls && w.V.hs_complete() && w.V.alive() && w.P.hs_complete() && w.P.alive()) {
+        size_t n = 3 + t.below(6); std::vector<Bytes> dg;
+        for (size_t j = 0; j < n; j++) { Bytes m = legit_msg(10 + (int) j, 5 + j); w.P.dgram_out.clear(); if (w.P.send(m) < 0) break; w.P.pump_out(); if (w.P.dgram_out.size() != 1) break; dg.push_back(w.P.dgram_out.front()); burst.push_back(m); }
+        w.P.dgram_out.clear(); n = dg.size();
+        std::vector<size_t> order(n); for (size_t j = 0; j < n; j++) order[j] = j;
+        for (size_t j = n; j > 1; j--) if (t.coin()) std::swap(order[j - 1], order[t.below(j)]);
+        std::vector<size_t> fed; std::string sched;
+        auto give = [&](size_t j, bool replay) { if (!w.V.ssl || w.V.failed) return; sched += fmt(replay ? " r%zu" : " %zu", j); w.V.feed_dgram(dg[j]); };
+        bool late_replayed = false;
+        for (size_t x = 0; x < n; x++) {
+            give(order[x], false); fed.push_back(order[x]);
+            unsigned reps = (unsigned) t.below(3);
+            for (unsigned q = 0; q < reps; q++) { size_t j = fed[t.below(fed.size())]; size_t mx = 0; for (size_t f : fed) mx = std::max(mx, f); if (j < mx) late_replayed = true; give(j, true); }
+        }
+        for (size_t j = 0; j < n; j++) give(j, true);
+        c.count("dtls-reorder-replay-phase"); if (late_replayed) c.count("dtls-replay-of-late-or-older-record");
+        if (c.verbose) fprintf(stderr, "  replay schedule:%s\n", sched.c_str());
+        std::vector<int> seen(n, 0);
+        for (auto &m : w.V.delivered_msgs) for (size_t j = 0; j < n; j++) if (m == burst[j]) { seen[j]++;
+            VF_CHECK(seen[j] <= 1, "replayed-record-delivered-again", "DTLS message %zu of a burst of %zu was delivered %d times under schedule%s; %s", j, n, seen[j], sched.c_str(), desc.c_str()); }
+    }
+    if (w.dtls) for (auto &m : w.V.delivered_msgs) { bool ok = m == legit_msg(1, m.size()) || m == legit_msg(2, m.size()); for (auto &b : burst) if (m == b) ok = true;
+        VF_CHECK(ok, "delivered-data-not-from-peer-application", "DTLS delivered a datagram the peer never sent; %s", desc.c_str()); }
     c.count(std::string("vs:") + vs_name[vs]); c.count(std::string("kind:") + kind_name[kind]);
     if (mid) c.count("injected-mid-handshake");
     if (mid || item != I_RANDOM_CT) c.nontrivial(fmt("%d|%d|%d|%u|%d|%d", w.victim_client, vs, kind, std::min(k, recno), item, su ? su->auth * 2 + su->aead : 9));
